@@ -58,7 +58,10 @@ where
         // A run length follows a symbol iff the previous symbol is also in the table.
         if sym > 0 && frequencies[sym - 1] > 0 {
             let i = sym + 1;
-            let len = frequencies[i..].iter().position(|&g| g == 0).unwrap_or(0);
+            let len = frequencies[i..]
+                .iter()
+                .position(|&g| g == 0)
+                .unwrap_or(frequencies.len() - i);
 
             // SAFETY: `len < ALPHABET_SIZE`.
             write_u8(writer, len as u8)?;
